@@ -288,9 +288,13 @@ func (ex *Exec) checkWritable(frozen bool, id int, what string) {
 		ex.oblige("frozen-write", "", ex.tb().True(), what)
 	}
 	if n := len(ex.mergeMarks); n > 0 && id <= ex.mergeMarks[n-1] {
-		ex.fail("function on the merge list writes to pre-existing memory (%s)", what)
+		panic(mergeImpure{what: what})
 	}
 }
+
+// mergeImpure: a callee on the merge list turned out to write to memory that existed before
+// the call; the merged exploration is abandoned and the call is executed as an ordinary call.
+type mergeImpure struct{ what string }
 
 func (ex *Exec) store(p Value, nv Value) {
 	switch p := p.(type) {
@@ -321,7 +325,7 @@ func (ex *Exec) writeByte(bo *ByteObj, idx, val *smt.Term) {
 		return
 	}
 	if n := len(ex.mergeMarks); n > 0 && bo.ID <= ex.mergeMarks[n-1] {
-		ex.fail("function on the merge list writes to pre-existing byte memory")
+		panic(mergeImpure{what: "byte store"})
 	}
 	ex.storeByte(bo, idx, val)
 }
@@ -344,7 +348,7 @@ func (ex *Exec) writeRange(bo *ByteObj, dstOff *smt.Term, src *logNode, srcOff, 
 		return
 	}
 	if m := len(ex.mergeMarks); m > 0 && bo.ID <= ex.mergeMarks[m-1] {
-		ex.fail("function on the merge list writes to pre-existing byte memory")
+		panic(mergeImpure{what: what})
 	}
 	ex.bulkCopy(bo, dstOff, src, srcOff, n)
 }
